@@ -238,6 +238,7 @@ type lvar struct {
 	isState bool         // an out-parameter of a void function
 	aliased bool         // a slice local that is used other than by index, len, range and return (element stores would be shared)
 	nilFlag *lvar        // a map local declared without a value (nil): the boolean local that says it has been made since
+	nilUnknown bool      // ... and it was assigned the result of a call: whether it is nil is not tracked any more
 }
 
 type extern struct {
@@ -564,8 +565,14 @@ func (t *fnTr) expr(e ast.Expr) string {
 					t.unsupported(e, "comparison of function / pointer values")
 				}
 			case "vmap", "vlist":
-				// a nil map / slice and an empty one are the same model value (the entry list [])
-				if t.p.info.Types[x.Y].IsNil() {
+				// a nil map / slice and an empty one are the same model value (the entry list []); a map variable
+				// declared nil carries a flag that says whether it has been made
+				if lv := t.lvarOf(x.X); lv != nil && lv.nilFlag != nil && t.p.info.Types[x.Y].IsNil() {
+					if lv.nilUnknown {
+						t.unsupported(e, "nil test of a map that was assigned from a call")
+					}
+					r = "(negb " + lv.nilFlag.name + ")"
+				} else if t.p.info.Types[x.Y].IsNil() {
 					r = "(match " + t.expr(x.X) + " with [] => true | _ => false end)"
 				} else {
 					t.unsupported(e, "comparison of maps / slices")
@@ -708,12 +715,18 @@ func (t *fnTr) expr(e ast.Expr) string {
 		}
 		if lv := t.lvarOf(x.X); lv != nil && lv.kind == "xtok" {
 			// t.(xml.CharData): the character data of the token (a panic for any other token)
-			if types.ExprString(x.Type) != "xml.CharData" {
-				t.unsupported(e, "assertion on a token other than to xml.CharData / xml.StartElement (the latter as a definition)")
-			}
 			t.fresh++
 			n := fmt.Sprintf("as%d", t.fresh)
-			t.guards = append(t.guards, "ASSERT:"+lv.name+":Some (TChar "+n+")")
+			switch types.ExprString(x.Type) {
+			case "xml.CharData":
+				t.guards = append(t.guards, "ASSERT:"+lv.name+":Some (TChar "+n+")")
+			case "xml.Comment":
+				t.guards = append(t.guards, "ASSERT:"+lv.name+":Some (TComment "+n+")")
+			case "xml.Directive":
+				t.guards = append(t.guards, "ASSERT:"+lv.name+":Some (TDirective "+n+")")
+			default:
+				t.unsupported(e, "assertion on a token to this type used as a value")
+			}
 			return n
 		}
 		pat, _ := t.assertPat(t.p.info.Types[x.Type].Type, "")
@@ -728,6 +741,24 @@ func (t *fnTr) expr(e ast.Expr) string {
 	case *ast.SelectorExpr:
 		if f := t.lvarOf(x); f != nil {
 			return f.name
+		}
+		if ta, ok := unparen(x.X).(*ast.TypeAssertExpr); ok && ta.Type != nil {
+			if tl := t.lvarOf(ta.X); tl != nil && tl.kind == "xtok" {
+				t.fresh++
+				n := fmt.Sprintf("as%d", t.fresh)
+				switch types.ExprString(ta.Type) + "." + x.Sel.Name {
+				case "xml.ProcInst.Target":
+					t.guards = append(t.guards, "ASSERT:"+tl.name+":Some (TProcInst "+n+" _)")
+					return n
+				case "xml.ProcInst.Inst":
+					t.guards = append(t.guards, "ASSERT:"+tl.name+":Some (TProcInst _ "+n+")")
+					return n
+				case "xml.EndElement.Name":
+					t.guards = append(t.guards, "ASSERT:"+tl.name+":Some (TEnd "+n+")")
+					return n
+				}
+				t.unsupported(e, "field of an asserted token")
+			}
 		}
 		// xml.Name: n.Local / n.Space ; xml.Attr: a.Name / a.Value
 		switch t.kindOfExpr(x.X) {
@@ -851,6 +882,15 @@ func (t *fnTr) call(x *ast.CallExpr) string {
 				}
 				return "(app " + t.expr(x.Args[0]) + " [" + el + "])"
 			case "make":
+				if mk := t.kindOfExpr(x); (mk == "vmap" || mk == "bmap") && len(x.Args) == 2 {
+					// make(map[K]V, hint): the hint does not matter (it is evaluated: a negative hint panics only if constant)
+					mark := len(t.guards)
+					_ = t.expr(x.Args[1])
+					if len(t.guards) != mark {
+						t.unsupported(x, "partial operation in the size hint of make")
+					}
+					return fnZero(mk)
+				}
 				if len(x.Args) >= 2 {
 					n, ok := t.constInt(x.Args[1])
 					if ok && n == 1 && t.kindOfExpr(x) == "str" {
@@ -1266,7 +1306,7 @@ func (t *fnTr) assigned(list []ast.Stmt) []*lvar {
 								add(wl)
 							}
 						}
-						if se, ok := c.Fun.(*ast.SelectorExpr); ok && se.Sel.Name == "Token" && len(c.Args) == 0 {
+						if se, ok := c.Fun.(*ast.SelectorExpr); ok && (se.Sel.Name == "Token" || se.Sel.Name == "RawToken") && len(c.Args) == 0 {
 							if dl := t.lvarOf(se.X); dl != nil && dl.kind == "xdecoder" {
 								add(dl)
 							}
@@ -1516,6 +1556,9 @@ func (t *fnTr) errExpr(e ast.Expr) (string, bool) {
 			return el.name, true
 		}
 		if v, ok := t.p.info.Uses[r].(*types.Var); ok && v.Pkg() == t.p.pkg && v.Parent() == t.p.pkg.Scope() && t.kindOfType(v.Type()) == "err" {
+			if v.Name() == "NoRoot" {
+				return "(Some ENoRoot)", true // the one package error the callers test for
+			}
 			return "(Some EOther)", true
 		}
 	case *ast.SelectorExpr:
@@ -1917,6 +1960,9 @@ func (t *fnTr) assign(x *ast.AssignStmt, next func() string) string {
 				if !ok || lv.kind != kind {
 					t.unsupported(x, "two-value assignment to something other than locals of the result types")
 				}
+				if lv.nilFlag != nil {
+					lv.nilUnknown = true
+				}
 				return lv.name
 			}
 			obj := t.p.info.Defs[id]
@@ -1938,7 +1984,7 @@ func (t *fnTr) assign(x *ast.AssignStmt, next func() string) string {
 				}
 			}
 			// t, err := p.Token() on the *xml.Decoder parameter
-			if se, ok := c.Fun.(*ast.SelectorExpr); ok && se.Sel.Name == "Token" && len(c.Args) == 0 {
+			if se, ok := c.Fun.(*ast.SelectorExpr); ok && (se.Sel.Name == "Token" || se.Sel.Name == "RawToken") && len(c.Args) == 0 {
 				if dl := t.lvarOf(se.X); dl != nil && dl.kind == "xdecoder" {
 					va, vb := bind(a, "xtok"), bind(b, "errv")
 					return "let '(" + va + ", " + vb + ", " + dl.name + ") := go_token " + dl.name + " in\n  " + next()
@@ -1960,12 +2006,19 @@ func (t *fnTr) assign(x *ast.AssignStmt, next func() string) string {
 		// v, err := self(...) for a recursive function returning (T, error); state parameters (a reader / decoder the
 		// function consumes from) must be passed through and come back with the results
 		if c, isCall := x.Rhs[0].(*ast.CallExpr); isCall && t.isSelfCall(c) {
-			if len(t.resKind) != 2 || t.resKind[1] != "err" || strings.HasPrefix(t.resKind[0], "ptr:") || t.pairResult() {
+			if len(t.resKind) != 2 || t.resKind[1] != "err" || strings.HasPrefix(t.resKind[0], "ptr:") {
 				t.unsupported(x, "recursive call of a function with this signature used for its results")
 			}
 			mark := len(t.guards)
 			args := t.selfArgs(c)
 			va, vb := bind(a, t.resKind[0]), bind(b, "errv")
+			if t.pairResult() {
+				rp := "'(" + va + ", " + vb + ")"
+				if len(t.state) > 0 {
+					rp = "'((" + va + ", " + vb + "), " + tupleVal(t.state) + ")"
+				}
+				return t.wrap(mark, "bindr (fn_"+t.self.Name()+" fuel_ st "+strings.Join(args, " ")+")\n  (fun "+rp+" =>\n  "+next()+")")
+			}
 			z := fnZero(t.resKind[0])
 			rpat := "rr_"
 			if len(t.state) > 0 {
@@ -2051,6 +2104,16 @@ func (t *fnTr) assign(x *ast.AssignStmt, next func() string) string {
 		if define {
 			if ta, ok := x.Rhs[0].(*ast.TypeAssertExpr); ok && ta.Type != nil {
 				if tl := t.lvarOf(ta.X); tl != nil && tl.kind == "xtok" {
+					if types.ExprString(ta.Type) == "xml.EndElement" {
+						// a copy of the end tag: its name, one local per field of the name (assignable)
+						lv := &lvar{name: "l_" + l.Name, kind: "xend", fields: map[string]*lvar{}}
+						t.locals[obj] = lv
+						sp := t.newLocal(nil, l.Name+"_Name_Space", "str")
+						lo := t.newLocal(nil, l.Name+"_Name_Local", "str")
+						lv.fields["Name.Space"], lv.fields["Name.Local"] = sp, lo
+						lv.forder = []string{"Name.Space", "Name.Local"}
+						return "(match " + tl.name + " with Some (TEnd (Build_xname " + sp.name + " " + lo.name + ")) =>\n  " + next() + "\n  | _ => Crash end)"
+					}
 					if types.ExprString(ta.Type) != "xml.StartElement" {
 						t.unsupported(x, "assertion on a token other than to xml.CharData / xml.StartElement")
 					}
@@ -2191,6 +2254,9 @@ func (t *fnTr) assign(x *ast.AssignStmt, next func() string) string {
 		v := t.boxVal(x.Rhs[0])
 		t.freezeCheck(x, x.Rhs[0])
 		if lv.nilFlag != nil {
+			if lv.nilUnknown {
+				t.unsupported(x, "store into a map that was assigned from a call (it may be nil)")
+			}
 			t.guards = append(t.guards, "if negb "+lv.nilFlag.name+" then Crash else") // assignment to entry in nil map
 		}
 		return t.wrap(mark, "let "+lv.name+" := set "+k+" "+v+" "+lv.name+" in\n  "+next())
@@ -2777,13 +2843,24 @@ func (t *fnTr) rangeStmt(x *ast.RangeStmt, rest []ast.Stmt, end func() string) s
 		out = t.loop(x, x.Body, xs, func() string { return "'(" + name(x.Key, "str") + ", " + name(x.Value, "val") + ")" }, "(str * value)", rest, end)
 	case "xattrs":
 		// for _, v := range attrs: v is a COPY of the attribute (a struct): one local per field, assignable in the body
+		rxs := xs
 		if !isBlank(x.Key) {
-			t.unsupported(x, "range over attributes with an index variable")
+			rxs = "(enumerate " + xs + ")"
 		}
-		out = t.loop(x, x.Body, xs, func() string {
+		ety := "xattr"
+		if !isBlank(x.Key) {
+			ety = "(Z * xattr)"
+		}
+		out = t.loop(x, x.Body, rxs, func() string {
+			wrapIdx := func(p string) string {
+				if isBlank(x.Key) {
+					return p
+				}
+				return "'(" + name(x.Key, "int") + ", " + strings.TrimPrefix(p, "'") + ")"
+			}
 			vid, ok := x.Value.(*ast.Ident)
 			if !ok || vid.Name == "_" {
-				return "_"
+				return wrapIdx("_")
 			}
 			obj := t.p.info.Defs[vid]
 			lv := &lvar{name: "l_" + vid.Name, kind: "xattr", fields: map[string]*lvar{}}
@@ -2793,8 +2870,8 @@ func (t *fnTr) rangeStmt(x *ast.RangeStmt, rest []ast.Stmt, end func() string) s
 			va := t.newLocal(nil, vid.Name+"_Value", "str")
 			lv.fields["Name.Space"], lv.fields["Name.Local"], lv.fields["Value"] = sp, lo, va
 			lv.forder = []string{"Name.Space", "Name.Local", "Value"}
-			return "'(Build_xattr (Build_xname " + sp.name + " " + lo.name + ") " + va.name + ")"
-		}, "xattr", rest, end)
+			return wrapIdx("'(Build_xattr (Build_xname " + sp.name + " " + lo.name + ") " + va.name + ")")
+		}, ety, rest, end)
 	case "bmap":
 		// the entries in list order, which stands for the (arbitrary) hash-iteration order of the run
 		out = t.loop(x, x.Body, xs, func() string { return "'(" + name(x.Key, "str") + ", " + name(x.Value, "bool") + ")" }, "(str * bool)", rest, end)
@@ -2826,7 +2903,7 @@ func (t *fnTr) forStmt(x *ast.ForStmt, rest []ast.Stmt, end func() string) strin
 		isRead := false
 		if first != nil && len(first.Rhs) == 1 {
 			if c, ok := first.Rhs[0].(*ast.CallExpr); ok {
-				if se, ok := c.Fun.(*ast.SelectorExpr); ok && (se.Sel.Name == "Read" || se.Sel.Name == "Token") {
+				if se, ok := c.Fun.(*ast.SelectorExpr); ok && (se.Sel.Name == "Read" || se.Sel.Name == "Token" || se.Sel.Name == "RawToken") {
 					if rid, ok := se.X.(*ast.Ident); ok && rl != nil && t.locals[t.p.info.Uses[rid]] == rl && (se.Sel.Name == "Read") == (rl.kind == "reader") {
 						isRead = true
 					}
@@ -3056,7 +3133,7 @@ func constTable(p *pkgInfo, vs *ast.ValueSpec, i int) (string, bool) {
 
 // the functions translated into Pure_gen.v ("Recv.Method" for methods)
 var pureFuncs = []string{"cast", "escapeChars", "parsePath", "getSubKeyMap", "hasSubKeys", "Map.PathForKeyShortest", "valuesForKeyPath", "hasKey", "hasKeyPath", "getLeafNodes",
-	"Map.ValuesForKey", "Map.oldValuesForPath", "Map.ValuesForPath", "Map.LeafNodes", "getJson", "NewMapJsonReader", "NewMapJsonReaderRaw", "Map.Exists", "Map.ValueForPath", "Map.ValueForKey", "Map.LeafPaths", "Map.LeafValues", "valuesForArray", "Map.PathsForKey", "byteReader.ReadByte", "teeReader.ReadByte", "Maps.JsonString", "Maps.JsonStringIndent", "Maps.XmlString", "Maps.XmlStringIndent", "BeautifyXml", "Map.Copy", "Map.Json", "Map.Root", "NewMapXml", "NewMapXmlSeq", "lastKey", "xmlToMapParser"}
+	"Map.ValuesForKey", "Map.oldValuesForPath", "Map.ValuesForPath", "Map.LeafNodes", "getJson", "NewMapJsonReader", "NewMapJsonReaderRaw", "Map.Exists", "Map.ValueForPath", "Map.ValueForKey", "Map.LeafPaths", "Map.LeafValues", "valuesForArray", "Map.PathsForKey", "byteReader.ReadByte", "teeReader.ReadByte", "Maps.JsonString", "Maps.JsonStringIndent", "Maps.XmlString", "Maps.XmlStringIndent", "BeautifyXml", "Map.Copy", "Map.Json", "Map.Root", "NewMapXml", "NewMapXmlSeq", "lastKey", "xmlToMapParser", "xmlSeqToMapParser"}
 
 func genPure(p *pkgInfo) string {
 	vars, _ := pkgVars(p)
